@@ -550,6 +550,74 @@ def order_rule(ctx, P):
         ctx.check(o, paths.guarded(h, c, lambda fn, cc, pol: pol and "entry->rc" in fn.canon(cc, subst=False) and "== 0" in fn.canon(cc, subst=False).replace("(0 == ", "== 0 ").replace(" == 0)", " == 0")) or paths.guarded(h, c, lambda fn, cc, pol: pol and "bv" in fn.canon(cc, subst=False)), key(h, "prune"), h.where(c), "an existing entry is pruned although its context set is not empty")
 
 
+# ---------------------------------------------------------------------------------- ID SPACES
+FSG_ID = re.compile(r"fsglink->wid\b|fsg_link_s|->wid\b|fsg_model_word_id\(|fsg_model_word_add\(")
+
+
+def idspace_rule(ctx, P):
+    r = ctx.rule("ROLE.id-space", "the dictionary is indexed with dictionary word ids only: an index into dict->word[] (dict_pron, dict_pronlen, dict_is_single_phone, dict_first_phone ... expand to one) never derives from a grammar word id (the wid of a grammar link, fsg_model_word_id / word_add) except through dict_wordid(); both are int32 and in range, so nothing else notices", floor=10)
+    n = 0
+    for u in ("fsg_search.c", "fsg_lextree.c", "decoder.c", "state_align_search.c", "ps_alignment.c"):
+        for f in P.functions(u):
+            if not f.file.endswith(u):
+                continue
+            for i in f.find("Subscript"):
+                b = f.strip(f.ch(i)[0])
+                nd = f.nodes[b]
+                if nd["k"] != "Member" or nd.get("rec") != "dict_s" or nd.get("field") != "word":
+                    continue
+                ctx.touch(f)
+                idx = f.ch(i)[1]
+                c = f.canon(idx, calls=True)
+                n += 1
+                # follow the index through the locals it is computed from; what is inside dict_wordid( ... )
+                # is a spelling, not an id
+                bad = False
+                st = [(idx, 0)]
+                seen = set()
+                while st:
+                    x, dp = st.pop()
+                    if x in seen or dp > 6:
+                        continue
+                    seen.add(x)
+                    nx = f.nodes[x]
+                    if nx["k"] == "Call" and nx.get("callee") in ("dict_wordid", "dict_basewid"):
+                        continue
+                    if nx["k"] == "Call" and nx.get("callee") in ("fsg_model_word_id", "fsg_model_word_add"):
+                        bad = True
+                    if nx["k"] == "Member" and nx.get("field") == "wid" and nx.get("rec") == "fsg_link_s":
+                        bad = True
+                    if nx["k"] == "DeclRef" and nx.get("ref") in ("local", "param"):
+                        for (dn, val) in f.rd.def_values(x):
+                            if val not in (None, "uninit", "param") and dn != "param":
+                                st.append((val, dp + 1))
+                    st.extend((y, dp) for y in nx["ch"])
+                ctx.check(r, not bad, key(f, "dict-index@%d:%s" % (f.line(i), c[:40])), f.where(i), "the dictionary is indexed with `%s`, a grammar word id: the two id spaces only coincide by accident, so the wrong word's pronunciation decides (context sets, single-phone treatment)" % c)
+    if n < 10:
+        raise AnalysisIncomplete("dictionary subscripts not found (%d)" % n)
+
+
+def ciext_rule(ctx, P):
+    r = ctx.rule("CTX.external-phone", "the phone a lextree node presents to its neighbours (ci_ext, the key of the cross-word context tests) is the silence phone for a filler word - the only phone the context sets of fillers contain - and the word's own phone at that position otherwise", floor=4)
+    f = P.fn("psubtree_add_trans", "fsg_lextree.c")
+    ctx.touch(f)
+    n = 0
+    for s_ in paths.stores(f):
+        if not s_["path"].endswith("->ci_ext") or s_["rhs"] is None:
+            continue
+        n += 1
+        v = f.canon(s_["rhs"])
+        filler = paths.guarded(f, s_["node"], lambda fn, cc, pol: "filler" in fn.canon(cc, subst=False) and paths.cond_atoms(fn, cc, pol, subst=False)[1] is True) or \
+            paths.guarded(f, s_["node"], lambda fn, cc, pol: "filler" in fn.canon(cc, subst=False) and fn.canon(cc, subst=False).lstrip("(").startswith("!") and not pol)
+        notfiller = paths.guarded(f, s_["node"], lambda fn, cc, pol: "filler" in fn.canon(cc, subst=False) and paths.cond_atoms(fn, cc, pol, subst=False)[1] is False)
+        if filler and not notfiller:
+            ctx.check(r, v in ("silcipid", "lextree->mdef->sil", "bin_mdef_silphone(lextree->mdef)"), key(f, "filler@%d" % f.line(s_["node"])), f.where(s_["node"]), "a filler node presents `%s` to its neighbours instead of the silence phone: the context sets of fillers contain only silence, so the filler can no longer follow or precede a word directly" % v)
+        else:
+            ctx.check(r, re.match(r"^lextree->dict->word\[dictwid\]\.ciphone\[(0|p)\]$", v) is not None, key(f, "word@%d" % f.line(s_["node"])), f.where(s_["node"]), "a word node presents `%s` to its neighbours, not its own phone" % v)
+    if n < 4:
+        raise AnalysisIncomplete("ci_ext stores not found (%d)" % n)
+
+
 def run(ctx):
     P = ctx.P
     vit_rule(ctx, P)
@@ -557,6 +625,8 @@ def run(ctx):
     ctx_rule(ctx, P)
     once_rule(ctx, P)
     role_rule(ctx, P)
+    idspace_rule(ctx, P)
+    ciext_rule(ctx, P)
     order_rule(ctx, P)
     # the optimum that is reported is the score of the path that is returned (shared with C03)
     from . import c03
